@@ -946,3 +946,15 @@ Theorem ixfr_done_classification : forall fin z0 ser ws rest z' n,
      z' = zput soakey (v_ttl b, [v_soa b]) (XfrDiff.adds [] (XfrGlue.erase B))).
 Proof. exact XfrInversion.ixfr_done_classification. Qed.
 Print Assumptions ixfr_done_classification.
+
+Theorem udp_ixfr_done_is_denotation : forall fin z0 ser w ws rest z' n,
+  XfrZone.quiet z0 -> ttl_ok (v_ttl fin) -> v_serial fin <> ser ->
+  header_ok tIXFR w -> w_records w = soa_rr fin :: rest -> Forall XfrInversion.wire_rec rest ->
+  match rest with x :: _ => exists b, x = soa_rr b /\ ttl_ok (v_ttl b) | [] => True end ->
+  inbound_xfr z0 tIXFR (Some ser) true (w :: ws) = (Done z', n) ->
+  exists secs z1 b,
+    rest = XfrSections.secs_stream secs ++ [soa_rr b] /\ secs <> [] /\ XfrSections.skel_ok ser fin secs /\
+    XfrSections.end_serial ser secs = v_serial fin /\ v_soa b = v_soa fin /\ XfrSections.apply_secs z0 secs = Some z1 /\
+    z' = zput soakey (v_ttl b, [v_soa b]) z1.
+Proof. exact XfrInversion.udp_ixfr_done_is_denotation. Qed.
+Print Assumptions udp_ixfr_done_is_denotation.
